@@ -132,120 +132,63 @@ func C02bits(p *load.Program, run *report.Run) {
 		}
 	}
 	// the loops of the roles
+	roleNames := map[string]bool{"Garbler": true, "Evaluator": true, "StreamEvaluator": true, "Stream": true, "LabelForBit": true, "BitFromLabel": true}
 	type role struct{ pkg, typ, name string }
 	for _, r := range []role{{"circuit", "", "Garbler"}, {"circuit", "", "Evaluator"}, {"circuit", "", "StreamEvaluator"}, {"compiler/ssa", "Program", "Stream"}} {
-		rpkg, fd := dispatch.FindFunc(p, r.pkg, r.typ, r.name)
-		key := r.pkg + "." + r.name
-		if fd == nil {
-			run.Undecided("bit-wire-correspondence", key, "", "function not found")
+		rpkg0, fd0 := dispatch.FindFunc(p, r.pkg, r.typ, r.name)
+		key0 := r.pkg + "." + r.name
+		if fd0 == nil {
+			run.Undecided("bit-wire-correspondence", key0, "", "function not found")
 			continue
 		}
-		ast.Inspect(fd.Body, func(n ast.Node) bool {
-			st, ok := n.(ast.Stmt)
-			if !ok {
-				return true
+		// the role and the helpers of its own package it delegates to (one level): a decode loop moved into a
+		// helper is still a site of the role
+		units := []declRef{{rpkg0, fd0}}
+		for _, cd := range calleeDecls(p, rpkg0, fd0, 1) {
+			if cd.pkg != rpkg0 || roleNames[cd.fd.Name.Name] {
+				continue
 			}
-			iv, body := loopVar(st)
-			if body == nil {
-				return true
+			decides := false
+			ast.Inspect(cd.fd.Body, func(n ast.Node) bool {
+				if c, ok := n.(*ast.CallExpr); ok {
+					if _, name, _ := callName(c); name == "BitFromLabel" || name == "LabelForBit" {
+						decides = true
+					}
+				}
+				return !decides
+			})
+			if decides {
+				units = append(units, cd)
 			}
-			ast.Inspect(body, func(m ast.Node) bool {
-				switch t := m.(type) {
-				case *ast.ForStmt, *ast.RangeStmt:
-					return m == ast.Node(body) // inner loops are visited on their own
-				case *ast.CallExpr:
-					_, name, _ := callName(t)
-					switch {
-					case name == "LabelForBit" && len(t.Args) == 2:
-						run.Count("bit-sites", 1)
-						w := ast.Unparen(localDef(body, t.Args[0]))
-						c := localDef(body, t.Args[1])
-						widx := ""
-						switch d := w.(type) {
-						case *ast.IndexExpr:
-							widx = types.ExprString(ast.Unparen(unwrapConv(d.Index)))
-						case *ast.CallExpr:
-							if len(d.Args) == 1 {
-								widx = types.ExprString(ast.Unparen(unwrapConv(d.Args[0])))
-							}
-						}
-						bidx, pos, okc := bitTest(rpkg, c)
+		}
+		for ui, u := range units {
+			rpkg, fd := u.pkg, u.fd
+			key := key0
+			if ui > 0 {
+				key = key0 + "/" + fd.Name.Name
+			}
+			ast.Inspect(fd.Body, func(n ast.Node) bool {
+				st, ok := n.(ast.Stmt)
+				if !ok {
+					return true
+				}
+				iv, body := loopVar(st)
+				if body == nil {
+					return true
+				}
+				ast.Inspect(body, func(m ast.Node) bool {
+					switch t := m.(type) {
+					case *ast.ForStmt, *ast.RangeStmt:
+						return m == ast.Node(body) // inner loops are visited on their own
+					case *ast.CallExpr:
+						_, name, _ := callName(t)
 						switch {
-						case !okc || widx == "":
-							run.Undecided("bit-wire-correspondence", key+"/input-label", p.Rel(t.Pos()), "the wire or the bit test of LabelForBit was not recognised")
-						case widx != iv || bidx != iv:
-							run.Violate("bit-wire-correspondence", key+"/input-label", p.Rel(t.Pos()), fmt.Sprintf("wire %s gets the label for input bit %s (loop variable %s)", widx, bidx, iv), nil)
-						case !pos:
-							run.Violate("bit-wire-correspondence", key+"/input-label", p.Rel(t.Pos()), "the label for true is sent when the input bit is 0", nil)
-						default:
-							run.OK("bit-wire-correspondence", key+"/input-label", p.Rel(t.Pos()), "Wires[i] <- Bit(i) == 1")
-						}
-					case name == "SetBit" && len(t.Args) == 3:
-						run.Count("bit-sites", 1)
-						k := types.ExprString(ast.Unparen(unwrapConv(t.Args[1])))
-						// polarity of the stored bit: `if B { bit = 1 }` or the streamer's chain (decided by C16)
-						pol := ""
-						if id, ok := ast.Unparen(t.Args[2]).(*ast.Ident); ok {
-							ast.Inspect(body, func(q ast.Node) bool {
-								ifs, ok := q.(*ast.IfStmt)
-								if !ok {
-									return true
-								}
-								for _, s := range effectiveQ(rpkg.TypesInfo, ifs.Body.List) {
-									if as, ok := s.(*ast.AssignStmt); ok && len(as.Lhs) == 1 && types.ExprString(as.Lhs[0]) == id.Name {
-										if v, ok := constOf(rpkg, as.Rhs[0]); ok {
-											cond := ast.Unparen(ifs.Cond)
-											if _, isCall := cond.(*ast.CallExpr); isCall {
-												pol = "by-comparison"
-											} else if u, ok := cond.(*ast.UnaryExpr); ok && u.Op == token.NOT {
-												pol = map[bool]string{true: "neg", false: "pos"}[v == 1]
-											} else if _, ok := cond.(*ast.Ident); ok {
-												pol = map[bool]string{true: "pos", false: "neg"}[v == 1]
-											}
-										}
-									}
-								}
-								return true
-							})
-						}
-						switch {
-						case k != iv:
-							run.Violate("bit-wire-correspondence", key+"/result-bit", p.Rel(t.Pos()), fmt.Sprintf("the bit decoded from result label %s is stored as result bit %s", iv, k), nil)
-						case pol == "neg":
-							run.Violate("bit-wire-correspondence", key+"/result-bit", p.Rel(t.Pos()), "a decoded true is stored as 0", nil)
-						case pol == "":
-							run.Undecided("bit-wire-correspondence", key+"/result-bit", p.Rel(t.Pos()), "how the stored bit follows from the decoded value was not recognised")
-						default:
-							run.OK("bit-wire-correspondence", key+"/result-bit", p.Rel(t.Pos()), "SetBit(result, i, bit)")
-						}
-					}
-				case *ast.IfStmt:
-					// the evaluator's choice flags
-					bidx, pos, okc := bitTest(rpkg, t.Cond)
-					if !okc {
-						return true
-					}
-					// the inline selection: if bit { n = w.L1 } else { n = w.L0 }
-					selOf := func(list []ast.Stmt) (field string, wire ast.Expr) {
-						l := effectiveQ(rpkg.TypesInfo, list)
-						if len(l) != 1 {
-							return "", nil
-						}
-						if as, ok := l[0].(*ast.AssignStmt); ok && len(as.Rhs) == 1 {
-							if sel, ok := as.Rhs[0].(*ast.SelectorExpr); ok && (sel.Sel.Name == "L0" || sel.Sel.Name == "L1") {
-								return sel.Sel.Name, sel.X
-							}
-						}
-						return "", nil
-					}
-					if eb, ok := t.Else.(*ast.BlockStmt); ok {
-						thenF, w := selOf(t.Body.List)
-						elseF, _ := selOf(eb.List)
-						if thenF != "" && elseF != "" {
+						case name == "LabelForBit" && len(t.Args) == 2:
 							run.Count("bit-sites", 1)
-							def := ast.Unparen(localDef(body, w))
+							w := ast.Unparen(localDef(body, t.Args[0]))
+							c := localDef(body, t.Args[1])
 							widx := ""
-							switch d := def.(type) {
+							switch d := w.(type) {
 							case *ast.IndexExpr:
 								widx = types.ExprString(ast.Unparen(unwrapConv(d.Index)))
 							case *ast.CallExpr:
@@ -253,50 +196,163 @@ func C02bits(p *load.Program, run *report.Run) {
 									widx = types.ExprString(ast.Unparen(unwrapConv(d.Args[0])))
 								}
 							}
-							if !pos {
-								thenF, elseF = elseF, thenF
-							}
+							bidx, pos, okc := bitTest(rpkg, c)
 							switch {
-							case widx == "":
-								run.Undecided("bit-wire-correspondence", key+"/input-label", p.Rel(t.Pos()), "the wire of the selected label was not recognised")
+							case !okc || widx == "":
+								run.Undecided("bit-wire-correspondence", key+"/input-label", p.Rel(t.Pos()), "the wire or the bit test of LabelForBit was not recognised")
 							case widx != iv || bidx != iv:
 								run.Violate("bit-wire-correspondence", key+"/input-label", p.Rel(t.Pos()), fmt.Sprintf("wire %s gets the label for input bit %s (loop variable %s)", widx, bidx, iv), nil)
-							case thenF != "L1" || elseF != "L0":
-								run.Violate("bit-wire-correspondence", key+"/input-label", p.Rel(t.Pos()), "the label for true is selected when the input bit is 0", nil)
+							case !pos:
+								run.Violate("bit-wire-correspondence", key+"/input-label", p.Rel(t.Pos()), "the label for true is sent when the input bit is 0", nil)
 							default:
-								run.OK("bit-wire-correspondence", key+"/input-label", p.Rel(t.Pos()), "wire i <- Bit(i) == 1 ? L1 : L0")
+								run.OK("bit-wire-correspondence", key+"/input-label", p.Rel(t.Pos()), "Wires[i] <- Bit(i) == 1")
 							}
+						case name == "SetBit" && len(t.Args) == 3:
+							run.Count("bit-sites", 1)
+							k := types.ExprString(ast.Unparen(unwrapConv(t.Args[1])))
+							// polarity of the stored bit: `if B { bit = 1 }` or the streamer's chain (decided by C16)
+							pol := ""
+							if id, ok := ast.Unparen(t.Args[2]).(*ast.Ident); ok {
+								ast.Inspect(body, func(q ast.Node) bool {
+									ifs, ok := q.(*ast.IfStmt)
+									if !ok {
+										return true
+									}
+									for _, s := range effectiveQ(rpkg.TypesInfo, ifs.Body.List) {
+										if as, ok := s.(*ast.AssignStmt); ok && len(as.Lhs) == 1 && types.ExprString(as.Lhs[0]) == id.Name {
+											if v, ok := constOf(rpkg, as.Rhs[0]); ok {
+												cond := ast.Unparen(ifs.Cond)
+												if _, isCall := cond.(*ast.CallExpr); isCall {
+													pol = "by-comparison"
+												} else if u, ok := cond.(*ast.UnaryExpr); ok && u.Op == token.NOT {
+													pol = map[bool]string{true: "neg", false: "pos"}[v == 1]
+												} else if _, ok := cond.(*ast.Ident); ok {
+													pol = map[bool]string{true: "pos", false: "neg"}[v == 1]
+												}
+											}
+										}
+									}
+									return true
+								})
+							}
+							// SetBit(result, i, 1) under `if bit` (the zero bits are the fresh integer's own)
+							if v, ok := constOf(rpkg, t.Args[2]); ok && pol == "" {
+								ast.Inspect(body, func(q ast.Node) bool {
+									ifs, ok := q.(*ast.IfStmt)
+									if !ok || ifs.Else != nil {
+										return true
+									}
+									inside := false
+									ast.Inspect(ifs.Body, func(r ast.Node) bool {
+										if r == ast.Node(t) {
+											inside = true
+										}
+										return !inside
+									})
+									if !inside {
+										return true
+									}
+									cond := ast.Unparen(ifs.Cond)
+									if u, ok := cond.(*ast.UnaryExpr); ok && u.Op == token.NOT {
+										if _, isId := ast.Unparen(u.X).(*ast.Ident); isId {
+											pol = map[bool]string{true: "neg", false: "pos"}[v == 1]
+										}
+									} else if _, ok := cond.(*ast.Ident); ok {
+										pol = map[bool]string{true: "pos", false: "neg"}[v == 1]
+									}
+									return true
+								})
+							}
+							switch {
+							case k != iv:
+								run.Violate("bit-wire-correspondence", key+"/result-bit", p.Rel(t.Pos()), fmt.Sprintf("the bit decoded from result label %s is stored as result bit %s", iv, k), nil)
+							case pol == "neg":
+								run.Violate("bit-wire-correspondence", key+"/result-bit", p.Rel(t.Pos()), "a decoded true is stored as 0", nil)
+							case pol == "":
+								run.Undecided("bit-wire-correspondence", key+"/result-bit", p.Rel(t.Pos()), "how the stored bit follows from the decoded value was not recognised")
+							default:
+								run.OK("bit-wire-correspondence", key+"/result-bit", p.Rel(t.Pos()), "SetBit(result, i, bit)")
+							}
+						}
+					case *ast.IfStmt:
+						// the evaluator's choice flags
+						bidx, pos, okc := bitTest(rpkg, t.Cond)
+						if !okc {
 							return true
 						}
+						// the inline selection: if bit { n = w.L1 } else { n = w.L0 }
+						selOf := func(list []ast.Stmt) (field string, wire ast.Expr) {
+							l := effectiveQ(rpkg.TypesInfo, list)
+							if len(l) != 1 {
+								return "", nil
+							}
+							if as, ok := l[0].(*ast.AssignStmt); ok && len(as.Rhs) == 1 {
+								if sel, ok := as.Rhs[0].(*ast.SelectorExpr); ok && (sel.Sel.Name == "L0" || sel.Sel.Name == "L1") {
+									return sel.Sel.Name, sel.X
+								}
+							}
+							return "", nil
+						}
+						if eb, ok := t.Else.(*ast.BlockStmt); ok {
+							thenF, w := selOf(t.Body.List)
+							elseF, _ := selOf(eb.List)
+							if thenF != "" && elseF != "" {
+								run.Count("bit-sites", 1)
+								def := ast.Unparen(localDef(body, w))
+								widx := ""
+								switch d := def.(type) {
+								case *ast.IndexExpr:
+									widx = types.ExprString(ast.Unparen(unwrapConv(d.Index)))
+								case *ast.CallExpr:
+									if len(d.Args) == 1 {
+										widx = types.ExprString(ast.Unparen(unwrapConv(d.Args[0])))
+									}
+								}
+								if !pos {
+									thenF, elseF = elseF, thenF
+								}
+								switch {
+								case widx == "":
+									run.Undecided("bit-wire-correspondence", key+"/input-label", p.Rel(t.Pos()), "the wire of the selected label was not recognised")
+								case widx != iv || bidx != iv:
+									run.Violate("bit-wire-correspondence", key+"/input-label", p.Rel(t.Pos()), fmt.Sprintf("wire %s gets the label for input bit %s (loop variable %s)", widx, bidx, iv), nil)
+								case thenF != "L1" || elseF != "L0":
+									run.Violate("bit-wire-correspondence", key+"/input-label", p.Rel(t.Pos()), "the label for true is selected when the input bit is 0", nil)
+								default:
+									run.OK("bit-wire-correspondence", key+"/input-label", p.Rel(t.Pos()), "wire i <- Bit(i) == 1 ? L1 : L0")
+								}
+								return true
+							}
+						}
+						for _, s := range effectiveQ(rpkg.TypesInfo, t.Body.List) {
+							as, ok := s.(*ast.AssignStmt)
+							if !ok || len(as.Lhs) != 1 {
+								continue
+							}
+							ix, ok := as.Lhs[0].(*ast.IndexExpr)
+							if !ok || types.ExprString(as.Rhs[0]) != "true" {
+								continue
+							}
+							if tt := rpkg.TypesInfo.TypeOf(ix.X); tt == nil || tt.String() != "[]bool" {
+								continue
+							}
+							run.Count("bit-sites", 1)
+							fidx := types.ExprString(ast.Unparen(ix.Index))
+							switch {
+							case fidx != iv || bidx != iv:
+								run.Violate("bit-wire-correspondence", key+"/choice-flag", p.Rel(as.Pos()), fmt.Sprintf("choice flag %s is set from input bit %s", fidx, bidx), nil)
+							case !pos:
+								run.Violate("bit-wire-correspondence", key+"/choice-flag", p.Rel(as.Pos()), "the flag is set when the input bit is 0", nil)
+							default:
+								run.OK("bit-wire-correspondence", key+"/choice-flag", p.Rel(as.Pos()), "flags[i] <- Bit(i) == 1")
+							}
+						}
 					}
-					for _, s := range effectiveQ(rpkg.TypesInfo, t.Body.List) {
-						as, ok := s.(*ast.AssignStmt)
-						if !ok || len(as.Lhs) != 1 {
-							continue
-						}
-						ix, ok := as.Lhs[0].(*ast.IndexExpr)
-						if !ok || types.ExprString(as.Rhs[0]) != "true" {
-							continue
-						}
-						if tt := rpkg.TypesInfo.TypeOf(ix.X); tt == nil || tt.String() != "[]bool" {
-							continue
-						}
-						run.Count("bit-sites", 1)
-						fidx := types.ExprString(ast.Unparen(ix.Index))
-						switch {
-						case fidx != iv || bidx != iv:
-							run.Violate("bit-wire-correspondence", key+"/choice-flag", p.Rel(as.Pos()), fmt.Sprintf("choice flag %s is set from input bit %s", fidx, bidx), nil)
-						case !pos:
-							run.Violate("bit-wire-correspondence", key+"/choice-flag", p.Rel(as.Pos()), "the flag is set when the input bit is 0", nil)
-						default:
-							run.OK("bit-wire-correspondence", key+"/choice-flag", p.Rel(as.Pos()), "flags[i] <- Bit(i) == 1")
-						}
-					}
-				}
+					return true
+				})
 				return true
 			})
-			return true
-		})
+		}
 	}
 	run.Floor("bit-sites", 6)
 }
